@@ -1,9 +1,9 @@
 """Hypothesis strategies for Engine-K cases (conveyor + producer script + consumer script)."""
 from hypothesis import strategies as st
 
-GEOMS = [(4, 1, 1), (3, 1, 1), (2, 1, 2), (4, 2, 1), (5, 1, 0.5), (2, 0.5, 1), (3, 0.5, 2), (6, 2, 3), (5, 0.5, 5.76),
+GEOMS = [(4, 1, 1), (3, 1, 1), (2, 1, 2), (4, 2, 1), (5, 1, 0.5), (2, 0.5, 1), (3, 0.5, 2), (6, 2, 3), (5, 0.5, 5.76), (1, 0.1, 1),
          (1.5, 0.5, 1), (2.5, 1, 1), (3, 0.7, 1), (4, 1.5, 2)]
-NICE = 9          # the first NICE geometries have L integer and a multiple of il
+NICE = 10         # the first NICE geometries have L integer and a multiple of il (the last of them has a non-dyadic pitch of 0.1)
 PW = [0, 0, 0.3, 0.5, 1, 1.3, 2, 2 ** 0.5, 1.0 / 3.0, 3, 0.7, 5]
 CW = [0, 0, 0, 0.5, 1, 2, 5, 8, 1.3, 0.3, 12]
 
@@ -37,6 +37,9 @@ def build(t, nice_only=False, kinds=("continuous", "slotted"), holds=False, chol
     else:
         cons = [CW[cw[i % len(cw)] % len(CW)] for i in range(n)]
     case = {"conv": conv, "producer": prod, "consumer": cons, "T": 400.0}
+    if g_i >= 56:
+        # a large but legal clock value: everything happens 1e7 time units after the start (float spacing there is ~2e-9)
+        case["t0"] = 1e7
     if holds and (pmode // 4) % 2 == 1:
         # loading time: the producer holds its granted admission for a while before it puts the item
         case["hold"] = [HOLD[(pw[i % len(pw)] + cw[i % len(cw)]) % len(HOLD)] for i in range(n)]
